@@ -53,8 +53,8 @@ func Run(rep *core.Report, repo, verif string) int {
 	rep.Counts["functions"] = len(p.Funcs)
 	rep.Trusted = []string{"go/types type checker", "golang.org/x/tools go/ssa construction and dominator tree",
 		"callgraph/vta seeded by cha", "stdlib contracts named in the rules (io.Writer, io.ReadFull, io.CopyN, sort.Slice, bytes.Equal, crypto/*)"}
-	F0(env)
 	f(env)
+	F0(env)
 	if rep.Tier == "thorough" {
 		thoroughExtras(env, f)
 	}
@@ -89,8 +89,8 @@ func Replay(repo, verif, path string) int {
 	}
 	rep := core.NewReport(rf.Property, "quick")
 	env := &Env{R: rep, P: p, Repo: repo, Verif: verif, Tier: "quick"}
-	F0(env)
 	f(env)
+	F0(env)
 	found := false
 	code := 0
 	for _, o := range rep.Obls {
